@@ -17,6 +17,7 @@ exercises the transition first-chunk -> loop-chunk -> loop-chunk -> last-chunk):
   S3  _get_chunk_bounds: after every part the last bound equals the running total, bounds start at 0 and the
       regular grid inside a part has step chunk_size
   +   on every path the last kept part reaches n_samples under the comparisons decided on that path (an early return after the first chunk is caught)
+  +   S2: an excerpt loop bounded by the data length only (`range(a, n_samples, step)`) is a recognised wrong form
 Not decided: mtscomp's own chunk table and decoder; gaps for particular residues; strictness of increase.
 """
 import ast
@@ -256,8 +257,9 @@ def s2_excerpts(ctx):
         if f_ == 'range':
             if Pat().any(['range(%s)' % fi.params[1], 'range(0, %s)' % fi.params[1], 'range(0, %s, 1)' % fi.params[1]], e):
                 return True
-            if Pat().any(['range(%s + E_c)' % fi.params[1], 'range(E_c * %s)' % fi.params[1], 'range(%s)' % fi.params[0]], e):
-                return False
+            if Pat().any(['range(%s + E_c)' % fi.params[1], 'range(E_c * %s)' % fi.params[1], 'range(%s)' % fi.params[0], 'range(E_a, %s, E_s)' % fi.params[0], 'range(E_a, %s)' % fi.params[0],
+                          'range(E_a, %s + E_c, E_s)' % fi.params[0], 'range(E_a, %s - E_c, E_s)' % fi.params[0]], e):
+                return False          # bounded by the DATA LENGTH only: as many excerpts as steps fit, whatever n_excerpts says
             return None
         if f_ in ('count', 'cycle', 'repeat'):
             return False
